@@ -3,6 +3,7 @@ import re
 from .. import client as C
 from ..absint import Interp, State, Adt, Const
 from ..models import compile_models
+from .exprs import show
 from .. import extract
 
 
@@ -218,6 +219,36 @@ def r1_6_nested_padding(ctx, prog, rule="R1.6"):
         ctx.floor(rule, "iterations with inner padding", len(seen), 1)
 
 
+def r1_10_context_slice(ctx, prog, rule="R1.10"):
+    ctx.rule(rule, "the already-decoded part of the message handed to each attribute decoder is buffer[0..index] with "
+                   "index = 20 for the first attribute and 20 + (iterator position) afterwards - never less than the header, "
+                   "which the XOR-address decoders read (transaction id)")
+    paths, info = C.explore_fn(prog, "stun_rs::context::MessageDecoder::decode", "d", [r"\{closure"])
+    ctx.fn(info["body"])
+    seen = {}
+    n_ctx = 0
+    for pa in paths:
+        for e in pa.calls:
+            if re.search(r"AttributeDecoderContext::<'\\w+>::new$|AttributeDecoderContext.*::new$", e[1]):
+                n_ctx += 1
+                a = e[2]
+                if not (len(a) > 1 and "ret:index@" in repr(a[1])):
+                    seen["context built from %s" % show(C.expr_of(pa, a[1]) if len(a) > 1 else None)[:60]] = False
+            # the slices of `buffer` taken in the loop (raw call-time arguments: exact within an iteration)
+            if re.search(r"::index$", e[1]) and len(e[2]) == 2 and "top:buffer" in repr(e[2][0]):
+                sl = ("index::index", "top:buffer", C.expr_of(pa, e[2][1]))
+                k = show(sl)[:120]
+                ok = isinstance(sl[2], tuple) and sl[2][0] == "Range" and sl[2][1] == 0 and (
+                    sl[2][2] == 20 or (isinstance(sl[2][2], tuple) and sl[2][2][0] == "op:Add" and 20 in sl[2][2][1:] and "RawAttributesIter::pos" in repr(sl[2][2])))
+                if k not in seen or not ok:
+                    seen[k] = ok
+    ctx.ob(rule, "context-slice:used", n_ctx >= 1, "%d AttributeDecoderContext::new call(s) receive a slice of buffer" % n_ctx, info["where"])
+    for k, ok in sorted(seen.items()):
+        ctx.ob(rule, "context-slice:%s" % ("header-only" if k.endswith("Range(0, 20))") else "header+attributes" if "pos" in k else k[:40]), ok,
+               "decoders receive %s" % k, info["where"])
+    ctx.floor(rule, "context slice shapes", len(seen), 2)
+
+
 def check(ctx, env):
     ctx.explanation = (
         "Static, structural necessary conditions of the round trip: (R1.1) the variants of StunAttribute and the set of types "
@@ -247,6 +278,7 @@ def check(ctx, env):
     r1_3_r1_4(ctx, env.prog("full"))
     r1_5_header(ctx, env.prog("full"))
     r1_6_nested_padding(ctx, env.prog("full"))
+    r1_10_context_slice(ctx, env.prog("full"))
     from . import c02 as _c02
     _c02.r2_6_address_layout(ctx, env.prog("full"), rule="R1.8")     # writer / reader agreement of the shared address codec
     _c02.r2_7_u16_list(ctx, env.prog("full"), rule="R1.9")           # writer / reader agreement of the 16-bit list
